@@ -180,6 +180,12 @@ class BaseList(Proxy):
     def __reversed__(self):
         return BaseList(self.fam, not self.rev)
 
+    def __getitem__(self, k):
+        # the whole list reversed / copied by a slice; anything else is outside the model
+        if isinstance(k, slice) and k.start is None and k.stop is None and k.step in (None, 1, -1):
+            return BaseList(self.fam, (not self.rev) if k.step == -1 else self.rev)
+        raise EngineEscape('bases[%r]' % (k,))
+
 
 def selected(overlay, want):
     """z3 Bool: reading `overlay` at KEY selects what the spec `want` says.
